@@ -500,13 +500,27 @@ Proof.
     rewrite dep_oc_norm_add by lia. f_equal. lia.
 Qed.
 
-Lemma wsum_concat chunks : nonfinal_even chunks -> wsum chunks = wz (concat chunks).
+(* Checksum of the empty buffer: the accumulator comes back unchanged.  (Used by Proofs/NdpP.v: the
+   neighbour discovery messages are summed with an empty payload, and since /repo commit 1404d7f
+   icmpChecksum calls header.Checksum once on vv.ToView(), also when that is empty.) *)
+Lemma checksum_is_u16 buf init : is_u16 (checksum buf init).
 Proof.
-  induction chunks as [|c rest IH]; intros H; [reflexivity|].
-  cbn [wsum fold_right concat]. fold (wsum rest).
-  destruct rest as [|c2 rest'].
-  - cbn [wsum fold_right concat]. rewrite app_nil_r. lia.
-  - destruct H as [He Hr]. rewrite wz_app_even by exact He. rewrite IH by exact Hr. reflexivity.
+  unfold checksum. destruct (Nat.odd (length buf)); cbv zeta; unfold checksumCombine, w16, is_u16;
+    cbv zeta; consts; apply Z.mod_pos_bound; lia.
+Qed.
+
+Lemma checksum_nil init : is_u16 init -> checksum [] init = init.
+Proof.
+  intros H. unfold is_u16 in H. unfold checksum. cbn [length Nat.odd firstn sum_pairs]. cbv zeta.
+  unfold checksumCombine, w16, w32. cbv zeta. consts.
+  rewrite (Z.mod_small init 4294967296) by lia.
+  rewrite (Z.mod_small init 65536) by lia.
+  rewrite (Z.div_small init 65536) by lia.
+  rewrite (Z.mod_small 0 65536) by lia. rewrite Z.add_0_r.
+  rewrite (Z.mod_small init 4294967296) by lia.
+  rewrite (Z.div_small init 65536) by lia. rewrite Z.add_0_r.
+  rewrite (Z.mod_small init 4294967296) by lia.
+  apply Z.mod_small. lia.
 Qed.
 
 Lemma handleICMP6_eq r c k1 k2 i0 i1 s0 s1 tl rest :
@@ -514,7 +528,7 @@ Lemma handleICMP6_eq r c k1 k2 i0 i1 s0 s1 tl rest :
   let rest' := vv_trimFront (v :: rest) 8 in
   let n := w32 (8 + vv_size rest') in
   let x := checksum [129; c; 0; 0; i0; i1; s0; s1]
-             (checksum_chunks rest'
+             (checksum (concat rest')
                 (checksum [0; 0; 0; 58]
                    (checksum [w8 (n / 2^24); w8 (n / 2^16); w8 (n / 2^8); w8 n]
                       (checksum (r_remote r) (checksum (r_local r) 0))))) in
@@ -556,10 +570,11 @@ Qed.
 Lemma be32_ok n : bytes_ok (be32 n).
 Proof. unfold be32. bok; unfold is_byte; Z.div_mod_to_equations; lia. Qed.
 
-(* the ipv6 echo reply: type 129, code copied, everything behind the checksum field copied, from
-   the pinged address to the requester; and, when every non-final view of the echo data has even
-   length, an ICMPv6 checksum (RFC 4443 2.3: over the RFC 2460 pseudo-header and the message) that
-   verifies *)
+(* the ipv6 echo reply, for EVERY split of the message into views whose first view holds the
+   8-byte header: type 129, code copied, everything behind the checksum field copied, from the
+   pinged address to the requester, and an ICMPv6 checksum (RFC 4443 2.3: over the RFC 2460
+   pseudo-header and the message) that verifies - odd-length views included, since the payload
+   is summed as one byte string (vv.ToView()) *)
 Lemma handleICMP6_echo r views :
   views_ok views -> bytes_ok (r_local r) -> bytes_ok (r_remote r) ->
   length (r_local r) = 16%nat -> length (r_remote r) = 16%nat ->
@@ -569,8 +584,7 @@ Lemma handleICMP6_echo r views :
     length (p_msg p) = length (concat views) /\
     nth 0 (p_msg p) 0 = 129 /\ nth 1 (p_msg p) 0 = nth 1 (concat views) 0 /\
     echo_body (p_msg p) = echo_body (concat views) /\
-    (nonfinal_even (vv_trimFront views 8) ->
-     rfc1071_sum (pseudo6 (r_local r) (r_remote r) (Z.of_nat (length (p_msg p))) ++ p_msg p) 0 = 65535).
+    rfc1071_sum (pseudo6 (r_local r) (r_remote r) (Z.of_nat (length (p_msg p))) ++ p_msg p) 0 = 65535.
 Proof.
   intros [Hb Hlen] HL HR LL LR He.
   apply andb_true_iff in He as [H8 Ht]. apply Nat.leb_le in H8. apply Z.eqb_eq in Ht.
@@ -604,9 +618,8 @@ Proof.
   split; [reflexivity|].
   split; [rewrite Ecat; reflexivity|].
   split; [rewrite Ecat; reflexivity|].
-  intros Hev.
-  (* the chain of partial sums is one chunked sum *)
-  assert (Ex : x = checksum_chunks ([r_local r; r_remote r; upper; [0; 0; 0; 58]] ++ rest' ++ [h0]) 0).
+  (* the chain of partial sums is one chunked sum, the whole echo data being ONE chunk *)
+  assert (Ex : x = checksum_chunks ([r_local r; r_remote r; upper; [0; 0; 0; 58]] ++ [concat rest'] ++ [h0]) 0).
   { subst x. rewrite !checksum_chunks_app, !checksum_chunks_cons, !checksum_chunks_nil. reflexivity. }
   pose proof (proj1 (Forall_forall _ _) Hv) as Hmem.
   assert (Bc : is_byte c) by (apply Hmem; cbn [In]; tauto).
@@ -617,21 +630,16 @@ Proof.
   assert (Hh0 : bytes_ok h0) by (subst h0; bok).
   assert (Hup : bytes_ok upper) by (rewrite Eu; apply be32_ok).
   assert (H58 : bytes_ok [0; 0; 0; 58]) by bok.
-  assert (Hsmall : Forall small rest').
-  { apply Forall_forall. intros ch Hin. unfold small.
-    assert (length ch <= np)%nat; [|lia].
-    subst np. clear - Hin. induction rest' as [|a l IH]; [destruct Hin|].
-    cbn [concat]. rewrite app_length. destruct Hin as [->|Hin]; [lia|]. specialize (IH Hin). lia. }
-  assert (Hall : Forall bytes_ok ([r_local r; r_remote r; upper; [0; 0; 0; 58]] ++ rest' ++ [h0])) by bok.
-  assert (Hsm : Forall small ([r_local r; r_remote r; upper; [0; 0; 0; 58]] ++ rest' ++ [h0])).
-  { apply Forall_app; split; [|apply Forall_app; split; [exact Hsmall|]];
-      repeat (apply Forall_cons; [unfold small; rewrite ?LL, ?LR; try subst upper; try subst h0; cbn [length]; lia|]); apply Forall_nil. }
+  assert (Hall : Forall bytes_ok ([r_local r; r_remote r; upper; [0; 0; 0; 58]] ++ [concat rest'] ++ [h0])) by bok.
+  assert (Hsm : Forall small ([r_local r; r_remote r; upper; [0; 0; 0; 58]] ++ [concat rest'] ++ [h0])).
+  { apply Forall_app; split; [|apply Forall_app; split];
+      repeat (apply Forall_cons; [unfold small; rewrite ?LL, ?LR; try subst upper; try subst h0; cbn [length]; fold np; lia|]); apply Forall_nil. }
   rewrite (checksum_chunks_closed _ 0 Hall Hsm u16_0) in Ex.
-  rewrite !wsum_app, (wsum_concat rest' Hev) in Ex. cbn [wsum fold_right] in Ex. rewrite Z.add_0_l in Ex.
+  rewrite !wsum_app in Ex. cbn [wsum fold_right] in Ex. rewrite Z.add_0_l in Ex.
   pose proof (wz_nonneg _ HL) as N1. pose proof (wz_nonneg _ HR) as N2.
   pose proof (wz_nonneg _ Hup) as N3. pose proof (wz_nonneg _ H58) as N4.
   pose proof (wz_nonneg _ HP) as N5. pose proof (wz_nonneg _ Hh0) as N6.
-  set (T := wz (r_local r) + (wz (r_remote r) + (wz upper + (wz [0; 0; 0; 58] + 0))) + (wz (concat rest') + (wz h0 + 0))) in Ex.
+  set (T := wz (r_local r) + (wz (r_remote r) + (wz upper + (wz [0; 0; 0; 58] + 0))) + (wz (concat rest') + 0 + (wz h0 + 0))) in Ex.
   assert (HT : 0 <= T) by (subst T; lia).
   assert (Hx16 : is_u16 x) by (rewrite Ex; apply dep_oc_norm_u16, HT).
   destruct (dep_lnot16_bytes x Hx16) as (B1 & B2 & B3).
@@ -660,26 +668,34 @@ Proof.
   apply dep_oc_norm_complement, HT.
 Qed.
 
-(* without the evenness condition the checksum can be wrong: echo data delivered as views of
-   3 + 4 bytes (candidate finding F7) *)
-Lemma echo6_odd_chunk_refuted_l :
-  exists r views p,
+(* the code before /repo commit 1404d7f (fixed finding C13-echo6-odd-chunk, candidate F7) summed
+   the echo data view by view: for echo data delivered as views of 3 + 4 bytes its reply mirrors
+   the request but does NOT pass the RFC 4443 pseudo-header verification; the repaired code's reply
+   to the same input does *)
+Lemma echo6_odd_chunk_old_refuted_l :
+  exists r views p_old p,
     views_ok views /\ bytes_ok (r_local r) /\ bytes_ok (r_remote r) /\
     length (r_local r) = 16%nat /\ length (r_remote r) = 16%nat /\
     is_echo_request6 views = true /\ map (@length Z) (vv_trimFront views 8) = [3; 4]%nat /\
+    echo6_reply_old r views = Some p_old /\
+    nth 0 (p_msg p_old) 0 = 129 /\ echo_body (p_msg p_old) = echo_body (concat views) /\
+    rfc1071_sum (pseudo6 (r_local r) (r_remote r) (Z.of_nat (length (p_msg p_old))) ++ p_msg p_old) 0 <> 65535 /\
     handleICMP6 r views = Some (A6Reply p) /\
-    rfc1071_sum (pseudo6 (r_local r) (r_remote r) (Z.of_nat (length (p_msg p))) ++ p_msg p) 0 <> 65535.
+    rfc1071_sum (pseudo6 (r_local r) (r_remote r) (Z.of_nat (length (p_msg p))) ++ p_msg p) 0 = 65535.
 Proof.
   pose (a := [254; 128; 0; 0; 0; 0; 0; 0; 0; 0; 0; 0; 0; 0; 0; 1]).
   pose (b := [254; 128; 0; 0; 0; 0; 0; 0; 0; 0; 0; 0; 0; 0; 0; 2]).
   pose (views := [[128; 0; 0; 0; 0; 1; 0; 2; 1; 2; 3]; [4; 5; 6; 7]]).
   assert (Hbyte : forall l, forallb is_byteb l = true -> bytes_ok l) by exact bytes_okb_ok.
-  eexists (mkRoute a b), views, _.
+  eexists (mkRoute a b), views, _, _.
   split; [split; [apply Forall_forall; intros l [<-|[<-|[]]]; apply Hbyte; reflexivity|vm_compute; discriminate]|].
   split; [apply Hbyte; reflexivity|]. split; [apply Hbyte; reflexivity|].
   split; [reflexivity|]. split; [reflexivity|]. split; [reflexivity|]. split; [reflexivity|].
   split; [vm_compute; reflexivity|].
-  vm_compute. discriminate.
+  split; [reflexivity|]. split; [reflexivity|].
+  split; [vm_compute; discriminate|].
+  split; [vm_compute; reflexivity|].
+  vm_compute. reflexivity.
 Qed.
 
 (* ------------------------------------------------------------------ one request on an idle endpoint *)
@@ -846,18 +862,19 @@ Qed.
 Lemma no_panic_l r views : handleICMP4 views <> None /\ handleICMP6 r views <> None.
 Proof. split; [apply handleICMP4_no_panic|apply handleICMP6_no_panic]. Qed.
 
-(* the hypotheses of the IPv6 checksum clause hold for multi-view messages too: echo data in views
-   of 2 + 3 bytes behind a header that shares its view with the first two data bytes *)
+(* the hypotheses of the IPv6 clause hold for multi-view messages with odd views: echo data in
+   views of 1 + 1 + 3 bytes behind a header that shares its view with the first data byte *)
 Example echo6_example :
   let a := [254; 128; 0; 0; 0; 0; 0; 0; 0; 0; 0; 0; 0; 0; 0; 1] in
   let b := [32; 1; 13; 184; 0; 0; 0; 0; 0; 0; 0; 0; 0; 0; 0; 9] in
-  let views := [[128; 0; 0; 0; 0; 1; 0; 2; 1; 2]; [3; 4; 5]] in
-  views_ok views /\ is_echo_request6 views = true /\ nonfinal_even (vv_trimFront views 8) /\
+  let views := [[128; 0; 0; 0; 0; 1; 0; 2; 1]; [2]; [3; 4; 5]] in
+  views_ok views /\ is_echo_request6 views = true /\
+  map (@length Z) (vv_trimFront views 8) = [1; 1; 3]%nat /\
   exists p, handleICMP6 (mkRoute a b) views = Some (A6Reply p) /\
             p_msg p = [129; 0; 73; 107; 0; 1; 0; 2; 1; 2; 3; 4; 5] /\
             rfc1071_sum (pseudo6 a b 13 ++ p_msg p) 0 = 65535.
 Proof.
-  cbv zeta. split; [split; [apply Forall_forall; intros l [<-|[<-|[]]]; apply bytes_okb_ok; reflexivity|vm_compute; discriminate]|].
-  split; [reflexivity|]. split; [cbn; split; [reflexivity|exact I]|].
+  cbv zeta. split; [split; [apply Forall_forall; intros l [<-|[<-|[<-|[]]]]; apply bytes_okb_ok; reflexivity|vm_compute; discriminate]|].
+  split; [reflexivity|]. split; [reflexivity|].
   eexists. split; [vm_compute; reflexivity|]. split; vm_compute; reflexivity.
 Qed.
